@@ -201,6 +201,52 @@ def dataset_fns():
              types=types, members=SIZE1, uf_float=False)
     return chk_s, chk_f, byf, feats, dss
 
+FLAT_H = 'specs/C08/flatten.h'
+GEN_TU = 'src/generator/elemwise_identity.cpp'     # explicit instantiation of elemwise_generator_t<sclass_identity_t>
+
+
+def flatten_fns():
+    types = [(r'^nano::base_datasource_iterator_t$', 'struct nv_iter'),
+             (r'^nano::datasource_iterator_t<unsigned char, 1>$', 'struct nv_dsiter'),
+             (r'^nano::indices_cmap_t$|tensor_t<nano::tensor_carray_storage_t, long, 1>', 'struct nv_ilist'),
+             (r'^nano::mask_cmap_t$|data_cmap_t$|tensor_t<nano::tensor_carray_storage_t, unsigned char, 1>', 'struct nv_mask'),
+             (r'^nano::tensor2d_map_t$|tensor_t<nano::tensor_marray_storage_t, double, 2>', 'struct nv_t2d'),
+             (r'^std::tuple<long, bool, unsigned char>$|^tuple<typename __decay_and_strip<long>::__type, typename __decay_and_strip< ?bool &>::__type, typename __decay_and_strip< ?unsigned char &>::__type>$', 'struct nv_tuple_i64_b_u8'),
+             (r'^Eigen::VectorBlock<(Eigen::ArrayWrapper<)?Eigen::Map<Eigen::Matrix<double, -1, 1, 0>, 0>>?, -1>$', 'struct nv_seg'),
+             (r'^((Eigen::)?ArrayWrapper<)?Eigen::Map<Eigen::Matrix<double, -1, 1, 0>, 0>>?$', 'struct nv_seg'),
+             (r'^\(lambda at .*elemwise_identity\.h:\d+:\d+\)$', 'struct nv_op')]
+    ilist = [(r'^operator\(\)\|typename tbase::tconstref \(const nano::tensor_size_t\) const\|.*tensor_carray_storage_t, long, 1>', 'nv_ilist_at({&0}, {1})')]
+    size1 = [(r'^size\|nano::tensor_base_t<long, 1, true>', '{*self}.n')]
+    flt = 'nano::base_datasource_iterator_t'
+    base = dict(self_struct='struct nv_iter', types=types, calls=ilist, uf_float=False,
+                members=size1 + [(r'^index\|nano::base_datasource_iterator_t', 'iter_index'), (r'^size\|nano::base_datasource_iterator_t', 'iter_size')])
+    fns = [Fn('iter_sample', DRV, 'sample', flt=flt, **base),
+           Fn('iter_inc', DRV, 'operator++', flt=flt, select=lambda d: astload.param_types(d) == [], **base),
+           Fn('iter_bool', DRV, 'operator bool', flt=flt, kinds=('CXXConversionDecl',), **base),
+           Fn('iter_index', DRV, 'index', flt=flt, **base), Fn('iter_size', DRV, 'size', flt=flt, **base),
+           Fn('mask_getbit', MASK_TU, 'getbit', flt='nano::getbit', types=types, calls=ELEM, uf_float=False)]
+    deref = Fn('dsiter_deref', GEN_TU, 'operator*', flt='nano::datasource_iterator_t',
+               select=lambda d: '__decay_and_strip<const unsigned char &>' in d['type']['qualType'],
+               self_struct='struct nv_dsiter', types=types, uf_float=False,
+               calls=[(r'^getbit\|', 'mask_getbit'), (r'^make_tuple\|.*\(long &&, const bool &, const unsigned char &\)', '(struct nv_tuple_i64_b_u8){ {0}, {1}, {2} }')] + ELEM,
+               members=[(r'^sample\|nano::base_datasource_iterator_t \*', 'iter_sample(&{self}->base)'),
+                        (r'^index\|nano::base_datasource_iterator_t \*', 'iter_index(&{self}->base)')])
+    op = Fn('sclass_op', GEN_TU, 'process', flt='nano::sclass_identity_t::process', lambda_index=0,
+            lambda_select=lambda m: astload.template_args(m) == ['unsigned char'], self_struct='struct nv_op', types=types, uf_float=False)
+    flat = Fn('flatten_sclass_u8', GEN_TU, 'flatten', flt='elemwise_generator_t',
+              select=lambda d: (lambda ta: len(ta) == 2 and 'elemwise_identity.h' in ta[0] and ta[1] == 'nano::datasource_iterator_t<unsigned char, 1>')(astload.template_args(d)),
+              self_struct='struct nv_gen', types=types, uf_float=False,
+              calls=[(r'^operator\*\|tuple<.*\(\) const\|', 'dsiter_deref'),
+                     (r'^operator\+\+\|nano::base_datasource_iterator_t &\(\)', 'iter_inc(&({0}).base)'),
+                     (r'^operator\(\)\|int32_t \(const unsigned char &\) const\|', 'sclass_op'),
+                     (r'^operator\(\)\|Eigen::DenseCoeffsBase<.*Scalar &\(Eigen::Index\)', '(*nv_seg_at({&0}, {1}))')],
+              members=[(r'^operator bool\|nano::base_datasource_iterator_t', 'iter_bool(&({*self}).base)'),
+                       (r'^(vector|array)\|nano::tensor_t<nano::tensor_marray_storage_t, double, 2>', 'nv_t2d_row'),
+                       (r'^segment\|Eigen::DenseBase<(Eigen::ArrayWrapper<)?Eigen::Map<', 'nv_seg_segment'),
+                       (r'^setConstant\|Eigen::DenseBase<Eigen::Block<', 'nv_seg_fill'),
+                       (r'^size\|Eigen::EigenBase<Eigen::Block<', '{*self}.n')])
+    return [flat, deref, op] + fns
+
 
 def build(tier):
     targets = []
@@ -228,6 +274,7 @@ def build(tier):
     chk_s, chk_f, byf, feats, dss = dataset_fns()
     _, g5, _ = mask_fns()
     targets.append(Target('dataset_guarded_read', [chk_s, dss, g5] + list(iter_fns()), DS_H, enforce_none=True, harness=GUARDED_READ))
+    targets.append(Target('flatten_sclass_u8', flatten_fns(), FLAT_H))
     return {
         'targets': targets, 'vcs': [],
         'decided': [],
